@@ -215,6 +215,31 @@ theorem parent_task_is_notified {n m : Nat} {s : St} (hr : Reach n m s) :
     s.head.cd = s.armed - s.pushes ∧ (0 < s.armed → s.armed ≤ s.pushes → s.fired = true) :=
   parent_is_notified_after_countdown hr
 
+/-- **discard_puts_every_sub_task_back_to_sleep** — `discard_scheduled` (read from the source: `take_scheduled(0)` followed
+by the iterator's drop, which stores SLEEPING into every remaining element) leaves the set clean: in every reachable
+state in which both chains are empty and no waker thread is inside `wake_by_ref`, every task's `next` word is SLEEPING —
+so the next wake-up of any task claims and pushes it (a task left marked as scheduled without being in a chain could
+never be woken again). -/
+theorem discard_puts_every_sub_task_back_to_sleep {n m : Nat} {s : St} (hr : Reach n m s) (hs : s.stack = [])
+    (hi : s.iter = []) (hq : ∀ w, w < s.m → s.wpc w = .idle) (i : Nat) (hin : i < s.n) :
+    Extracted.taskSetDiscardTakesAndDrops = true ∧ s.next i = .sleeping := by
+  refine ⟨by decide, ?_⟩
+  have h := reach_inv hr
+  cases hn : s.next i with
+  | sleeping => rfl
+  | empty =>
+    rcases h.owned i hin (by rw [hn]; simp) with a | a | ⟨w, hw, _, ⟨hd, hp⟩ | ⟨hd, hp⟩⟩
+    · rw [hs] at a; cases a
+    · rw [hi] at a; cases a
+    · rw [hq w hw] at hp; cases hp
+    · rw [hq w hw] at hp; cases hp
+  | idx k =>
+    rcases h.owned i hin (by rw [hn]; simp) with a | a | ⟨w, hw, _, ⟨hd, hp⟩ | ⟨hd, hp⟩⟩
+    · rw [hs] at a; cases a
+    · rw [hi] at a; cases a
+    · rw [hq w hw] at hp; cases hp
+    · rw [hq w hw] at hp; cases hp
+
 /-- **owner_loop_shape** — read from the source on every run: the loop at the end of `BroadcastFuture::poll` registers the
 parent's waker (when nothing is scheduled) *before* `take_scheduled(1)`, returns `Pending` when that finds nothing and
 otherwise walks the iterator and repeats. -/
